@@ -74,6 +74,10 @@ R_tw(th, w, self, cont) == <<[th EXCEPT !.pc = "tw", !.cont = cont], [w EXCEPT !
 TWDone(th, w, how) == <<[th EXCEPT !.pc = th.cont, !.cont = NONE, !.aux = how], [w EXCEPT !.mu = NONE, !.out = <<>>]>>
 \* world: the user's Unmarshal returns
 UMDone(th) == [th EXCEPT !.pc = "mr.done"]
+\* world: the user's Error() method (called by MarshalError inside SendError) returns
+MADone(th) == [th EXCEPT !.pc = "tc.pkt"]
+\* SendError evaluates the user's err.Error() after the state transition and before the packet is written
+AfterMark(th) == IF th.op = "SendError" /\ th.arg.gate THEN "ma" ELSE "tc.pkt"
 
 TermOps == {"CloseSend", "Close", "SendError"}
 
@@ -100,7 +104,7 @@ En(s, th, w) ==
       [] th.pc = "hp.mulock" -> s.lk.mu = NONE
       [] th.pc = "hp.pbclose" -> ~s.pb.held
       [] th.pc = "hp.pbclose0" -> ~s.pb.held
-      [] th.pc \in {"idle", "ret", "tw", "um"} -> FALSE
+      [] th.pc \in {"idle", "ret", "tw", "um", "ma"} -> FALSE
       [] OTHER -> TRUE
 
 (* ---- one step ------------------------------------------------------------ *)
@@ -174,9 +178,9 @@ Do(s, th, w, self, manual) ==
             doTerm == th.op # "CloseSend" \/ (s1.send # U /\ s1.recv # U)
             e == IF th.op = "CloseSend" THEN "termBoth" ELSE IF th.op = "Close" THEN "termClosed" ELSE "termError"
         IN IF doTerm THEN R([s EXCEPT !.sig = TermSigs(s1, e)], [th EXCEPT !.pc = "tc.pbclose", !.aux = e], w)
-           ELSE R([s EXCEPT !.sig = s1, !.lk.mu = NONE], Goto(th, "tc.pkt"), w)
+           ELSE R([s EXCEPT !.sig = s1, !.lk.mu = NONE], Goto(th, AfterMark(th)), w)
   [] th.pc = "tc.pbclose" ->
-        R(CheckFin([s EXCEPT !.pb = PbClose(s.pb, th.aux), !.lk.mu = NONE]), Goto(th, "tc.pkt"), w)
+        R(CheckFin([s EXCEPT !.pb = PbClose(s.pb, th.aux), !.lk.mu = NONE]), Goto(th, AfterMark(th)), w)
   [] th.pc = "tc.pkt" ->       \* sendPacketLocked: WriteFrame
         LET kind == CASE th.op = "CloseSend" -> "CloseSend" [] th.op = "Close" -> "Close"
                       [] th.op = "SendError" -> "Error" [] th.op = "SendCancel" -> "Cancel"
